@@ -9,7 +9,7 @@ against the pinned tree; nothing is invented."""
 REL = {
     "today": ["heute", "today", "todays", "um diese zeit", "zu dieser zeit", "um diesen zeitpunkt",
               "zu diesem zeitpunkt", "at this time"],
-    "tomorrow": ["morgen", "tmrw", "tmr", "tomorrow", "tommorow", "tomorrows", "tommorrow", "tomorow"],
+    "tomorrow": ["morgen", "tmrw", "tmr", "tomorrow", "tommorow", "tomorrows", "tommorrow", "tomorow", "tommorows", "tommorrows", "tomorows"],
     "aftertomorrow": ["übermorgen"],
     "yesterday": ["gestern", "yesterday", "yesterdays"],
     "beforeyesterday": ["vorgestern", "vor gestern"],
@@ -95,6 +95,9 @@ CLOCK = {
     "ham": (lambda h, m: "%d%s" % (_h12(h), _ap(h, "am", "pm")) if m == 0 else None, {"ampm": True}),
     "h am": (lambda h, m: "%d %s" % (_h12(h), _ap(h, "am", "pm")) if m == 0 else None, {"ampm": True}),
     "h a.m.": (lambda h, m: "%d %s" % (_h12(h), _ap(h, "a.m.", "p.m.")) if m == 0 else None, {"ampm": True}),
+    "h:MM a.m": (lambda h, m: "%d:%02d %s" % (_h12(h), m, _ap(h, "a.m", "p.m")), {"ampm": True}),
+    "h:MMa.m.": (lambda h, m: "%d:%02d%s" % (_h12(h), m, _ap(h, "a.m.", "p.m.")), {"ampm": True}),
+    "ha.m.": (lambda h, m: "%d%s" % (_h12(h), _ap(h, "a.m.", "p.m.")) if m == 0 else None, {"ampm": True}),
     # four digits: the documented military-time heuristic applies only to
     # minutes that are a multiple of 5, and a number that is also a year
     # (19xx, 200x-202x) has a competing reading
@@ -154,6 +157,8 @@ MONTH_DE = ["januar", "februar", "märz", "april", "mai", "juni", "juli", "augus
             "november", "dezember"]
 MONTH_AB = ["jan", "feb", "mar", "apr", "may", "jun", "jul", "aug", "sep", "oct", "nov", "dec"]
 MONTH_AB_DE = ["jan", "feb", "mär", "apr", "mai", "jun", "jul", "aug", "sept", "okt", "nov", "dez"]
+MONTH_AB_DOT = ["jan.", "feb.", "mar.", "apr.", "may", "jun.", "jul.", "aug.", "sept.", "oct.", "nov.", "dec."]
+MONTH_AB_DE_DOT = ["jan.", "feb.", "mrz.", "apr.", "mai", "jun.", "jul.", "aug.", "sep.", "okt.", "nov.", "dez."]
 
 
 def ord_en(n):
@@ -191,6 +196,10 @@ DOY_FORMS = {
 # (excluded: 'vormittag(s)' alone also reads 'vor mittag' = before noon;
 # 'am morgen' = 'am <tomorrow>')
 POD_FORMS = {
+    # (rarer spellings the part-of-day pattern accepts)
+    "erste": "first", "letzte": "last", "spätest möglich": "last", "spätest möglicher": "last", "earliest possible": "first", "first possible": "first",
+    "frühst möglich": "first", "frühestens möglich": "first", "as early": "first", "erster möglicher": "first",
+    "morgends": "morning", "morgend": "morning", "frühe": "morning", "abens": "evening", "so spät wie möglicher": "last",
     "morning": "morning", "morgens": "morning", "früh": "morning", "in der früh": "morning", "in der frühe": "morning",
     "early": "morning", "forenoon": "forenoon", "am vormittag": "forenoon", "afternoon": "afternoon",
     "nachmittag": "afternoon", "nachmittags": "afternoon", "noon": "noon", "mittag": "noon", "mittags": "noon",
@@ -240,6 +249,9 @@ DATE_NOTATIONS = {
     "d. mon yyyy": (lambda y, m, d: "%d. %s %04d" % (d, MONTH_AB_DE[m - 1], y), {"named": True}),
     "mon d yyyy": (lambda y, m, d: "%s %d %04d" % (MONTH_AB[m - 1], d, y), {"named": True}),
     "mon d, yyyy": (lambda y, m, d: "%s %d, %04d" % (MONTH_AB[m - 1], d, y), {"named": True}),
+    # dotted and alternative abbreviations the month patterns accept ('sept.', 'mrz.', 'okt.')
+    "d mon. yyyy": (lambda y, m, d: "%d %s %04d" % (d, MONTH_AB_DOT[m - 1], y), {"named": True}),
+    "d. mon. yyyy": (lambda y, m, d: "%d. %s %04d" % (d, MONTH_AB_DE_DOT[m - 1], y), {"named": True}),
     "the dth of Month yyyy": (lambda y, m, d: "the %s of %s %04d" % (ord_en(d), MONTH_EN[m - 1], y), {"named": True}),
     "am d. Monat yyyy": (lambda y, m, d: "am %d. %s %04d" % (d, MONTH_DE[m - 1], y), {"named": True}),
 }
@@ -263,6 +275,8 @@ RANGE_JOIN = {
     "-": "{a} - {b}", "-tight": "{a}-{b}", "to": "{a} to {b}", "bis": "{a} bis {b}", "until": "{a} until {b}",
     "til": "{a} til {b}", "between-and": "between {a} and {b}", "von-bis": "von {a} bis {b}",
     "from-to": "from {a} to {b}", "zwischen-und": "zwischen {a} und {b}", "from-until": "from {a} until {b}",
+    "bis zum": "{a} bis zum {b}", "to the": "{a} to the {b}", "und": "{a} und {b}", "and": "{a} and {b}", "auf": "{a} auf {b}", "auf den": "{a} auf den {b}",
+    "vom-bis": "vom {a} bis {b}", "vom-bis zum": "vom {a} bis zum {b}", "slash": "{a} / {b}",
 }
 RANGE_HOUR_FORMS = {
     "H:MM": lambda h, m: "%d:%02d" % (h, m), "HH:MM": lambda h, m: "%02d:%02d" % (h, m),
@@ -276,8 +290,8 @@ RANGE_HOUR_FORMS = {
 # it the competing reading 'morning'.  There is no rule for '<range> <date>'.
 RANGE_CTX = ["none", "date", "am d.m.", "tomorrow", "on friday", "freitag"]
 
-BEFORE_WORDS = ["before", "vor", "bis", "spätestens", "bis spätestens", "spätestens bis"]
-AFTER_WORDS = ["after", "nach", "ab", "from"]
+BEFORE_WORDS = ["before", "vor", "bis", "spätestens", "bis spätestens", "spätestens bis", "bis spätestens bis"]
+AFTER_WORDS = ["after", "nach", "ab", "from", "ab frühestens", "frühestens ab", "from earliest", "earliest after", "from earliest after", "ab frühstens ab"]
 NOT_BEFORE_WORDS = ["not before", "nicht vor"]
 NOT_AFTER_WORDS = ["not after", "nicht nach"]
 # excluded with the competing reading: 'latest' / 'earliest' / 'frühestens'
@@ -317,6 +331,13 @@ HALF_FORMS = {
     "halbe stunden": (30, "minutes"), "half a hour": (30, "minutes"), "halb tag": (12, "hours"),
     "halbe tage": (12, "hours"), "1/2 stunde": (30, "minutes"),
 }
+# ... and every other spelling the pattern accepts: (half|halb|halfe|halbe|1/2) [a|an] <hour or day word>
+for _h in ("half", "halb", "halfe", "halbe", "1/2"):
+    for _a in ("", " a", " an"):
+        for _w in ("hour", "hours", "stunde", "stunden"):
+            HALF_FORMS.setdefault("%s%s %s" % (_h, _a, _w), (30, "minutes"))
+        for _w in ("day", "days", "tag", "tage"):
+            HALF_FORMS.setdefault("%s%s %s" % (_h, _a, _w), (12, "hours"))
 
 # ---------------------------------------------------------------------------
 # day expressions for composition (C20, C09, C10)
@@ -347,6 +368,8 @@ DAY_FORMS = {
 # every weekday spelling of the specification (abbreviations, dotted forms, supported typos): used by C20 with a few clocks only
 DAY_FORMS_SPELLED = {"dow/spelled": lambda p: p["w"], "dow/am spelled": lambda p: "am " + p["w"], "dow/on spelled": lambda p: "on " + p["w"]}
 COMPOSE_CONN = {"_": " ", "at": " at ", "um": " um "}
+# the other words the 'absorb' pattern accepts in front of a clock time (used with a few day forms and clocks only)
+COMPOSE_CONN_MORE = {"gegen": " gegen ", "ca.": " ca. ", "about": " about ", "around": " around ", "approx.": " approx. ", "ca": " ca "}
 
 # ---------------------------------------------------------------------------
 # a mixed pool of time expressions drawn from every table above (C01, C02,
